@@ -38,6 +38,7 @@
 -/
 import LLFreeV.Proofs.EndToEnd
 import LLFreeV.Proofs.CfgOk
+import LLFreeV.Proofs.ConcUpperThreads
 namespace LLFree.C02
 open LLFree
 
@@ -122,6 +123,19 @@ theorem change_keeps_allocation (c : Cfg) (ok : CfgOk c) (H : Nat → Nat) (m : 
 theorem history_keeps_invariant (c : Cfg) (ok : CfgOk c) (calls : List Call) (hvalid : ∀ x ∈ calls, x.valid c)
     (H : Nat → Nat) (m : Mem) (inv : UpperInv0 c H m) :
     Runs m (runCalls c calls) (fun _ m' => ∃ H', UpperInv0 c H' m') := calls_safe ok calls hvalid H m inv
+
+/-- **After any concurrent history**: `n` threads run arbitrary public calls (get, put of held
+    blocks at their order, drain) under any schedule; once they have all returned, every
+    sequential history of valid calls from there runs without panic and keeps the invariant —
+    the sequential ownership theorems above apply to every call of the continuation. -/
+theorem conc_then_history_keeps_invariant (c : Cfg) (ok : CfgOk c) (H : Nat → Nat) (m : Mem) (inv : UpperInv0 c H m)
+    (n : Nat) (cmds : Nat → List UCmd) (hvalidU : ∀ k, ∀ x ∈ cmds k, x.valid c) (sched : List Nat) (hsched : ∀ k ∈ sched, k < n)
+    (hdone : ∀ k, k < n → ∃ held, ((concRun sched (m, fun k => Th.at (runU c (cmds k) ⟨[], []⟩))).2 k).step
+      (concRun sched (m, fun k => Th.at (runU c (cmds k) ⟨[], []⟩))).1 = .done held)
+    (calls : List Call) (hvalid : ∀ x ∈ calls, x.valid c) :
+    Runs (concRun sched (m, fun k => Th.at (runU c (cmds k) ⟨[], []⟩))).1 (runCalls c calls)
+      (fun _ m' => ∃ H', UpperInv0 c H' m') :=
+  calls_safe ok calls hvalid H _ (upper_conc_quiescent ok H m inv n cmds hvalidU sched hsched hdone)
 
 /-- Non-vacuity of `CfgOk`: the default geometry with two classes (2 slots each) and the
     `simple` policy. -/
